@@ -303,6 +303,7 @@ func init() {
 			st.assume(mkAnd(mkCmp("le", mkInt(sortInt, 0), n), mkCmp("le", n, b.L[".len"])))
 			st.assume(mkAnd(mkCmp("le", mkInt(sortInt, 0), oobn), mkCmp("le", oobn, oob.L[".len"])))
 			st.ghost["net.lastpkt"] = snapshot(ex, st, b, n)
+			st.ghost["net.lastok"] = boolV(mkAnd(mkEq(res[4].scalar(), mkInt(sortRef, 0)), mkEq(res[2].scalar(), mkInt(sortInt, 0))))
 			return res
 		})
 		rd.writes = func(call *ast.CallExpr, info *types.Info, w *writes) {
